@@ -40,7 +40,10 @@ def run(ctx):
         ctx.account(mc)
         ctx.log("%s: %d generated / %d distinct" % (cfg, mc.generated, mc.distinct))
     behs = []
-    for name, w in SCRIPTS:
+    scripts = SCRIPTS
+    if q and not ctx._parts:
+        scripts = SCRIPTS[:2] + [SCRIPTS[2 + ctx.seed % 2]]     # quick: d1, s1 and one of s2 / s3 by seed
+    for name, w in scripts:
         if not ctx.want(name):
             continue
         sim = ctx.tlc("damage", "Damage", "SIM.cfg", simulate=(1 if q else 2), depth=4000, workers=1 if q else 2, files=files,
